@@ -334,14 +334,14 @@ func (self Reflect) listMap(v reflect.Value) node.Node {
 			var item reflect.Value
 			key := r.Key
 			if r.New {
-				if len(key) == 0 {
+				if !isKeyValid(key) {
 					return nil, nil, fmt.Errorf("%w. no key given for new entry of %s", fc.BadRequestError, r.Meta.Ident())
 				}
 				item = self.create(e, nil)
 				keyVal := reflect.ValueOf(key[0].Value())
 				v.SetMapIndex(keyVal, item)
 				keys = nil
-			} else if len(key) > 0 {
+			} else if isKeyValid(key) {
 				keyVal := reflect.ValueOf(key[0].Value())
 				if r.Delete {
 					v.SetMapIndex(keyVal, reflect.ValueOf(nil))
